@@ -79,6 +79,7 @@ specs["C02"] = {"runs": [
     run("cmd/hranoprovod-cli:Harness_app_period", QT, {"R": 2, "command": 0}, cover=["ran"], note="whole application, `register`: every selected day in file order (symbolic dates in any order, period given globally / on the sub-command / both)"),
     run("cmd/hranoprovod-cli:Harness_app_pipeline", Q, {"command": 0, "posbook": 1, "E": 1, "shapes": 4}, "real", cover=["ran"], note="whole application, `register --use-old-reg-reporter`: book and log as text with symbolic values through the real parser and resolver (nested recipes, repeated ingredients, forward/backward references), two days, against the reference model; book amounts assumed positive"),
     run("cmd/hranoprovod-cli:Harness_app_pipeline", QT, {'command': 9, 'posbook': 1, 'E': 1, 'shapes': 3}, "real", cover=["ran"], note='the same through the default template (rendered by the template interpreter)'),
+    run("cmd/hranoprovod-cli:Harness_app_pipeline", QT, {'command': 0, 'posbook': 1, 'zeroamt': 1, 'E': 1, 'shapes': 2}, "real", cover=["ran"], note='one ingredient with the amount 0 exactly (an element reached only through it is still listed, with 0.00)'),
     run("cmd/hranoprovod-cli:Harness_app_pipeline", T, {"command": 0, "posbook": 0, "E": 2, "shapes": 4}, "real", cover=["ran"], max_paths=2000000),
     run("_root:Harness_merge_duplicates", QT, {"E": 5}, "real", cover=["merged"], note="every repetition pattern of <=5 entries over three foods"),
     run(CMD + "reporter:Harness_day_item", T, {"E": 3, "bookshapes": 4}, "real", cover=["item"]),
@@ -110,6 +111,7 @@ specs["C05"] = {"runs": [run(CMD + "balance:Harness_pure_function", Q, {"unit": 
     [run(CMD + "balance:Harness_pure_function", T, {"unit": u, "E": 4, "unitamounts": 1, "bookshapes": 2}, "fp", "all", cover=["ran-twice"], note=units[u] + ": IEEE-754 encoding") for u in fpunits] + [
     run("resolver:Harness_C05_resolve_twice", QT, {"K": 3, "M": 1, "L": 1, "Nmax": 4}, "fp", "all", cover=["ran-twice"]),
     run("cmd/hranoprovod-cli:Harness_app_sequence", QT, {}, "fp", cover=["ran-twice"], note="whole application: a command gives the same output when run first and when run again after another command with other flags (14 variants, all ordered pairs): no state kept between runs"),
+    run("cmd/hranoprovod-cli:Harness_app_keywords", QT, {}, cover=["ran"], note="with --today given, the keywords today, yesterday, last7, last30 select by that date and not by the wall clock (the output is a function of the inputs)"),
     run("cmd/hranoprovod-cli:Harness_app_twice", QT, {}, "real", "repo", cover=["ran-twice"], note="whole application: 13 commands twice on the same files, every visiting order of the maps the repository's code ranges over (maporder=repo), names differing only in letter case, equal quantities"),
     run(CMD + "balance:Harness_pure_function", QT, {"unit": 3, "E": 2, "casepair": 1}, "real", "all", cover=["ran-twice"], note=units[3] + ": names that differ only in letter case"),
     run(CMD + "balance:Harness_pure_function", QT, {"unit": 6, "E": 2, "casepair": 1}, "real", "all", cover=["ran-twice"], note=units[6] + ": names that differ only in letter case"),
@@ -269,6 +271,7 @@ specs["C15"] = {"runs": [
     run(CMD + "reporter:Harness_day_item_long_names", QT, {}, "real", cover=["item"], note="names longer than the columns that coincide after shortening: as foods outside the book, as elements of recipes, as recipes of the book"),
     run(CMD + "balance:Harness_balance_modes", Q, {"F": 2}, "real", owned=["collapse-"], cover=["printed"], note="collapse modes change only layout: same leaves and amounts (prefix-free sets), top-level rows add up to everything logged (every set)"),
     run(CMD + "balance:Harness_balance_modes", T, {"F": 3}, "real", owned=["collapse-"], cover=["printed"]),
+    run(CMD + "balance:Harness_balance_single", QT, {"F": 2, "catalogue": 6}, "real", owned=["single-"], cover=["printed"], note="--single-element X under default / collapse-last / collapse: the same foods with the same amounts of X and the grand total"),
  ], "assumptions": [REAL, DATA, "printable ASCII names for shortening"],
  "outside_claim": ["non-ASCII names in shorten", ],
  "stubs": [FMT, BUFIO, "github.com/aquilax/truncate: executed from its real SSA (math.Ceil/Floor intrinsics)"]}
@@ -280,6 +283,7 @@ specs["C16"] = {"runs": [
     run("cmd/hranoprovod-cli:Harness_app_settings", Q, {"full": 0}, owned=prec_owned + ["print-layout=parse-layout"], cover=["loaded"], note="whole application GetApp().Run(args): the real flag definitions of root.go (names, defaults, EnvVars), urfave/cli flag and environment handling, options.Load; flag x env x config entry for one focus setting (the other settings jointly unset / from flags / from env / from config) x 7 configuration-file situations (absent, default location $HOME/.hranoprovod/config, --config, HR_CONFIG, either naming a missing file, --config over HR_CONFIG) x --today"),
     run("cmd/hranoprovod-cli:Harness_app_maxdepth", QT, {}, owned=["maxdepth:"], cover=["ran"], note="whole application: the resolve depth from flag / HR_MAXDEPTH / configuration file reaches each of nine resolving commands (book nested 3 deep: limits 1-3 rejected, 4+ resolve)"),
     run("cmd/hranoprovod-cli:Harness_app_stats_today", QT, {}, owned=["today:", "stats-ok"], cover=["ran"], note="whole application: --today is shown by stats as given, in every explored time zone"),
+    run("cmd/hranoprovod-cli:Harness_app_keywords", QT, {}, cover=["ran"], note="the current date given with --today is the one the period keywords are counted from"),
     run("cmd/hranoprovod-cli:Harness_app_settings", T, {"full": 1}, owned=prec_owned + ["print-layout=parse-layout"], cover=["loaded"], max_paths=400000, note="the full product {flag} x {env} x {config entry} over the four settings"),
  ], "assumptions": ["process environment: os.LookupEnv/syscall.Getenv read a virtual environment set by the harness; os/user.Current returns a user whose home directory is a virtual directory", "gopkg.in/gcfg.v1 ReadInto: contract stub interpreting the documented INI subset and assigning the [Global]/[Resolver] fields", "os.Stat/os.Open: virtual file system (exists / does not exist)"],
  "outside_claim": ["gcfg's INI parsing", "how the C library / passwd database resolves the home directory", "--today parsing (C06)"],
